@@ -738,3 +738,95 @@ func init() {
 		return &ChanV{cap: 0, id: fr.e.sched.nextChanID()}
 	})
 }
+
+// ---------- time.Timer / time.Ticker on the virtual clock ----------
+
+func init() {
+	mkTimerObj := func(e *Exec, typeName string, d int64, period int64) (*Value, *timer) {
+		tt := e.namedType("time", typeName)
+		st := e.zero(tt).(Struct)
+		ch := &ChanV{cap: 1, id: e.sched.nextChanID()}
+		setField(st, tt, "C", ch)
+		var cell Value = st
+		p := &cell
+		t := e.addTimer(d, ch, nil, period)
+		e.objs[fmt.Sprintf("timer%p", p)] = t
+		return p, t
+	}
+	reg("time.NewTimer", func(fr *frame, args []Value) Value {
+		e := fr.e
+		p, _ := mkTimerObj(e, "Timer", e.durationArg(args[0], "NewTimer"), 0)
+		return p
+	})
+	reg("time.NewTicker", func(fr *frame, args []Value) Value {
+		e := fr.e
+		d := e.durationArg(args[0], "NewTicker")
+		if d <= 0 {
+			panic(targetPanic{e.runtimeErrorPlain("non-positive interval for NewTicker"), "time.NewTicker"})
+		}
+		p, _ := mkTimerObj(e, "Ticker", d, d)
+		return p
+	})
+	timerOf := func(fr *frame, v Value) *timer {
+		p, _ := v.(*Value)
+		if p == nil {
+			panic(targetPanic{fr.e.runtimeError("nil timer"), "time.Timer"})
+		}
+		t, _ := fr.e.objs[fmt.Sprintf("timer%p", p)].(*timer)
+		if t == nil {
+			unsupported("time.Timer not created by the engine")
+		}
+		return t
+	}
+	reg("(*time.Timer).Stop", func(fr *frame, args []Value) Value {
+		t := timerOf(fr, args[0])
+		was := t.active
+		t.active = false
+		return fr.e.tt.Bool(was)
+	})
+	reg("(*time.Ticker).Stop", func(fr *frame, args []Value) Value {
+		timerOf(fr, args[0]).active = false
+		return nil
+	})
+	reg("(*time.Timer).Reset", func(fr *frame, args []Value) Value {
+		e := fr.e
+		t := timerOf(fr, args[0])
+		was := t.active
+		t.when = e.sched.now + e.durationArg(args[1], "Timer.Reset")
+		if !t.active {
+			t.active = true
+			e.sched.timers = append(e.sched.timers, t)
+		}
+		return e.tt.Bool(was)
+	})
+	reg("(*time.Ticker).Reset", func(fr *frame, args []Value) Value {
+		e := fr.e
+		t := timerOf(fr, args[0])
+		d := e.durationArg(args[1], "Ticker.Reset")
+		t.when, t.period = e.sched.now+d, d
+		if !t.active {
+			t.active = true
+			e.sched.timers = append(e.sched.timers, t)
+		}
+		return nil
+	})
+	reg("time.AfterFunc", func(fr *frame, args []Value) Value {
+		e := fr.e
+		d := e.durationArg(args[0], "AfterFunc")
+		fn := args[1]
+		tt := e.namedType("time", "Timer")
+		var cell Value = e.zero(tt)
+		p := &cell
+		t := e.addTimer(d, nil, func() { e.spawn(fr, 0, fn, nil) }, 0)
+		e.objs[fmt.Sprintf("timer%p", p)] = t
+		return p
+	})
+	reg("time.Until", func(fr *frame, args []Value) Value {
+		e := fr.e
+		t := args[0].(Struct)
+		now := e.timeValue().(Struct)
+		dsec := e.tt.Bin(OpSub, t[1].(*Term), now[1].(*Term))
+		dns := e.tt.Bin(OpSub, t[0].(*Term), now[0].(*Term))
+		return e.tt.Bin(OpAdd, e.tt.Bin(OpMul, dsec, e.tt.BV(64, 1_000_000_000)), dns)
+	})
+}
